@@ -98,10 +98,10 @@ func init() {
 	register(&Check{
 		Prop:   "C15",
 		Engine: "seq",
-		Rule:   "operation sequences executed by an adversarial caller: ONE key buffer and ONE value buffer are reused for every Put/Delete/Batch.Put/Batch.Delete and overwritten with a poison pattern after each return; every slice returned by Get/ListKeys is kept with a private copy. Oracles: reference map on every read path, canary check of the caller's buffers before every reuse and after every step, kept slices unchanged. non-trivial = sequence contains a batch staging several operations",
+		Rule:   "operation sequences executed by an adversarial caller: ONE key buffer and ONE value buffer are reused for every Put/Delete/Batch.Put/Batch.Delete and overwritten with a poison pattern after each return; every slice returned by Get/ListKeys/Batch.Get is kept with a private copy, and a second slice returned by Batch.Get for every key after every staging call is scribbled over by the caller. Oracles: reference map on every read path, canary check of the caller's buffers before every reuse and after every step, kept slices unchanged. non-trivial = sequence contains a batch staging several operations",
 		Assumptions: []string{
 			"sync.Pool is a deterministic LIFO free list, so a record parked with a foreign slice is the next one handed out (the adversarial legal behaviour)",
-			"Batch.Get results are judged at return time only",
+			"a slice returned by Batch.Get is the caller's like one returned by DB.Get (the statement says Get)",
 		},
 		Tasks: func(tier string) []Task {
 			d, b := 4, 2
